@@ -2,6 +2,8 @@
 bounded stand-in) and on z3 terms (proof).  Byte strings of concrete length are *numeric
 ropes*: lists of segments (value, length, little-endian flag)."""
 import z3
+# terms are printed only for reports: keep the printer bounded (z3's Python printer unfolds a DAG into a tree)
+z3.set_option(max_depth=6, max_args=8, max_visited=300, max_lines=12)
 
 INT = z3.IntSort()
 
